@@ -51,12 +51,15 @@ GROUPS = dict(
     G1=dict(ios=["host 10.1.1.1", "10.2.0.0 255.255.0.0"],
             nxos=["10 host 10.1.1.1", "20 10.2.0.0/16", "30 10.3.0.0 0.0.255.0"]),
     G2=dict(ios=["10.9.9.0 255.255.255.0"], nxos=["10.9.9.0/24"]),
+    # the same NAME as G1 with other members (never in one configuration with G1)
+    G1b=dict(ios=["host 10.7.7.7"], nxos=["10.7.7.0/24", "host 10.7.8.1"]),
 )
 GROUP_CUBES = dict(
     G1=dict(ios=[(S.ip2int("10.1.1.1"), 0), (S.ip2int("10.2.0.0"), 0xFFFF)],
             nxos=[(S.ip2int("10.1.1.1"), 0), (S.ip2int("10.2.0.0"), 0xFFFF),
                   (S.ip2int("10.3.0.0"), 0xFF00)]),
     G2=dict(ios=[(S.ip2int("10.9.9.0"), 255)], nxos=[(S.ip2int("10.9.9.0"), 255)]),
+    G1b=dict(ios=[(S.ip2int("10.7.7.7"), 0)], nxos=[(S.ip2int("10.7.7.0"), 255), (S.ip2int("10.7.8.1"), 0)]),
 )
 INTERFACES = dict(
     I1=["ip address 10.0.1.1 255.255.255.0", "ip access-group A in"],
@@ -67,7 +70,7 @@ INTERFACES = dict(
 )
 BIND = dict(I1=[("A", "in")], I2=[("A", "in"), ("B", "out")], I3=[("B", "in"), ("B", "out")], I4=[],
             I5=[("A", "in")])
-SECTIONS = ["A", "B", "S", "G1", "G2", "I1", "I2", "I3", "I4", "I5", "N_line", "N_nested", "N_bang",
+SECTIONS = ["A", "B", "S", "G1", "G2", "G1b", "I1", "I2", "I3", "I4", "I5", "N_line", "N_nested", "N_bang",
             "N_vty"]
 
 
@@ -83,7 +86,9 @@ def section_text(name, platform, w):
             head = f"ip access-list {name}"
         return "\n".join([head] + [ind + b for b in body])
     if name in GROUPS:
-        head = f"object-group network {name}" if platform == "ios" else f"object-group ip address {name}"
+        gname = "G1" if name == "G1b" else name
+        head = f"object-group network {gname}" if platform == "ios" else \
+            f"object-group ip address {gname}"
         return "\n".join([head] + [ind + b for b in GROUPS[name][platform]])
     if name in INTERFACES:
         return "\n".join([f"interface Ethernet1/{name[1]}"] + [ind + b for b in INTERFACES[name]])
@@ -149,7 +154,7 @@ def check(platform, arr, w, names, ctx):
 
     secs = [SECTIONS[i] for i in arr]
     texts = [section_text(s, platform, w) for s in secs]
-    if any(t is None for t in texts):
+    if any(t is None for t in texts) or ("G1" in secs and "G1b" in secs):
         return
     config = "\n".join(texts) + "\n"
     ctx.ev()
@@ -158,6 +163,7 @@ def check(platform, arr, w, names, ctx):
     # ---------------- model
     acl_names = [s for s in secs if s in ACL_BODY and (names is None or s in names)]
     defined = [s for s in secs if s in GROUPS]
+    variant = {("G1" if s == "G1b" else s): s for s in defined}  # group name -> section variant
     inputs = {a: set() for a in ACL_BODY}
     outputs = {a: set() for a in ACL_BODY}
     for s in secs:
@@ -213,7 +219,7 @@ def check(platform, arr, w, names, ctx):
                     if mem:
                         bad[f"members_on_plain_address:{side}"] = ([m.line for m in mem], [])
                     continue
-                want_c = GROUP_CUBES[grp][platform] if grp in defined else []
+                want_c = GROUP_CUBES[variant[grp]][platform] if grp in variant else []
                 try:
                     got_c = [rd._addr(m.line.split())[0][0] for m in mem]
                 except (Reject, IndexError) as ex:
@@ -270,17 +276,17 @@ def check(platform, arr, w, names, ctx):
         except Exception as ex:  # noqa
             ctx.viol("addrgroups:exception", case, repr(ex), "list")
             return
-    if [g.name for g in grps] != defined:
+    if [g.name for g in grps] != [("G1" if s == "G1b" else s) for s in defined]:
         ctx.viol("addrgroups:names_or_order", case, [g.name for g in grps], defined)
         return
-    for g in grps:
+    for g, sec in zip(grps, defined):
         try:
             mem = Reader(platform).read_addrgroup(g.line)["members"]
         except Reject as ex:
             ctx.viol("addrgroups:not_readable", dict(case, group=g.name), str(ex), "valid group")
             return
-        if [m[1] for m in mem] != GROUP_CUBES[g.name][platform]:
-            ctx.viol("addrgroups:members", dict(case, group=g.name), g.line, GROUPS[g.name][platform])
+        if [m[1] for m in mem] != GROUP_CUBES[sec][platform]:
+            ctx.viol("addrgroups:members", dict(case, group=g.name), g.line, GROUPS[sec][platform])
             return
     ctx.out("addrgroups_ok")
 
